@@ -29,7 +29,8 @@ RULE = ("case = session on one state object (kind [positive: no bases; complex/d
         "all-Z row as C-order / Fortran-order / strided-view array; data object and bases object of a later call: new / the same "
         "object again / the same object overwritten in place); covers N < B, N = mB, N = mB + r; thorough enumerates single calls "
         "N <= 12 x B <= 13 x neg in {None, B, other}; plus a malformed stream (B = 0, no reference-basis row, bases of the wrong "
-        "length, also as the second call of a session) and direct `_shuffle_data` calls with arbitrary num_batches; non-trivial "
+        "length, also as the second call of a session: outside the quantifier, informational counters only) and direct `_shuffle_data` calls "
+        "(verdict only for num_batches = ceil(N/B), the only value fit passes; other values informational); non-trivial "
         "iff N >= 2 and a recorded permutation is not the identity; distinct by hash of the case")
 EXTRA_TRUSTED = [
     "C07: torch.randperm(N) returns a permutation of 0..N-1 and torch.randint(high, size) returns `size` values below `high` "
@@ -350,9 +351,17 @@ def one_call(ctx, case, st, kind, run, r_idx, state):
                 high, size = ep["randint"]
                 ctx.oracle("randint result in range", len(ep["negIdx"]) == size and all(0 <= i < high for i in ep["negIdx"]), case,
                            sig=f"{sig}/randint-range")
+    if expect_error == "no-Z-row":
+        # bases supplied, no row measured entirely in the reference basis: the property allows negative chains to start ONLY from
+        # reference-basis rows, so a run that is not refused must not hand out any negative row (which exception refuses it is not constrained)
+        handed = sum(len(ng) for ep in eps for _, ng, _ in ep["batches"])
+        ctx.oracle("bases supplied without a reference-basis row: no negative-phase row may be handed out (there is no admissible one)", handed == 0, case,
+                   detail={"negative_rows_handed_out": handed, "raised": err}, sig=f"{sig}/negative-not-refbasis", theorem="C07_negative, C07_refbasis")
     ctx.oracle("caller's data unchanged (bytes, identity, dtype)", after_d == snap_d, case, sig=f"{sig}/no-mutation-data", theorem="C07_no_mutation")
     ctx.oracle("caller's bases unchanged", after_b == snap_b, case, sig=f"{sig}/no-mutation-bases", theorem="C07_no_mutation")
-    ctx.oracle("no batch shares memory with the caller's objects", not any(alias), case, sig=f"{sig}/no-alias", theorem="C07_no_mutation")
+    # informational only: the property says the caller's objects are never MODIFIED (checked above, bytes + identity); whether a
+    # batch is a view of the caller's storage is an implementation choice the property text does not constrain
+    ctx.count("batches share memory with the caller's objects" if any(alias) else "no batch shares memory with the caller's objects")
 
     # ---- correspondence with the model (fed the data of THIS call)
     if ctx.driver is None:
@@ -361,7 +370,9 @@ def one_call(ctx, case, st, kind, run, r_idx, state):
         perm = eps[0]["perm"] if eps else list(range(N))
         m = ctx.driver.call("c07.epoch", data=data, bases=bases, posB=B, negB=neg, perm=perm, negIdx=[])
         merr = m["prep"].get("error") or m["out"].get("error")
-        ctx.point("error kind", "aux", err, merr, case, exact=True, sig=f"{sig}/error")
+        # malformed input is outside the property's quantifier (N >= 1, batch sizes >= 1, a reference-basis row, bases of the data's
+        # length): which exception is raised is not constrained by the property text -> informational counter, no verdict
+        ctx.count(f"malformed[{expect_error}]: error kind " + ("agrees with the model" if err == merr else f"differs (impl {err}, model {merr})"))
         return
     for e_i, ep in enumerate(eps):
         c2 = {**case, "epoch": e_i}
@@ -381,8 +392,9 @@ def one_call(ctx, case, st, kind, run, r_idx, state):
         if "error" not in mh:
             mkeys = [k for r in mh["refs"] for k in (("p", r["pos"][0]), ("n", r["neg"][0])) + ((("b", r["bases"][0]),) if r["bases"] else ())]
             ikeys = [k for s in ep["storages"] for k in (("p", s[0]), ("n", s[1])) + ((("b", s[2]),) if s[2] else ())]
-            ctx.point("storage sharing pattern of the batches", "aux", canon([k[1] for k in ikeys]), canon([k[1] for k in mkeys]), c2,
-                      exact=True, sig=f"{sig}/aliasing")
+            # which fresh tensors the batches are views of (one shuffled copy sliced vs. one gather per batch) is an implementation
+            # choice: informational counter only
+            ctx.count("storage-sharing pattern of the batches " + ("as in epochOnHeap" if canon([k[1] for k in ikeys]) == canon([k[1] for k in mkeys]) else "differs from epochOnHeap"))
             ctx.point("model frame", "aux", True, mh["callers_unchanged"] and all(r["pos"][0] >= mh["before"] for r in mh["refs"]), c2,
                       exact=True, sig=f"{sig}/frame")
 
@@ -416,26 +428,42 @@ def one_direct(ctx, case):
     negIdx = next((en[3] for en in rec.log if en[0] == "randint"), [])
     ctx.case({k: case[k] for k in case if k != "dseed"}, nontrivial=N >= 2 and perm != sorted(perm))
     ctx.count("direct_shuffle_calls")
-    ctx.count(f"direct:nb{'<' if nb < -(-N // B) else ('=' if nb == -(-N // B) else '>')}ceil")
+    ceil_nb = -(-N // B)
+    # `fit` always passes num_batches = ceil(N / pos_batch_size): only such calls of the private helper are inside the property's
+    # quantifier and carry a verdict; calls with an inconsistent num_batches (the zip-truncation statement C07_zip_truncation is a theorem
+    # about the MODEL's zip) are evaluated for information only
+    in_scope = nb == ceil_nb
+    ctx.count(f"direct:nb{'<' if nb < ceil_nb else ('=' if in_scope else '>')}ceil" + ("" if in_scope else " (informational)"))
     sig = f"{kind}/shuffle-direct"
     if bases is not None:
         zexp = [d for d, b in zip(data, bases) if all(c == "Z" for c in b)]
         ctx.oracle("extract_refbasis_samples == rows whose basis is all Z, in order", zl == zexp, case, detail={"impl": zl, "expected": zexp},
                    sig=f"{kind}/refbasis-oracle", theorem="C07_refbasis")
+    # whatever iterable is returned has been materialised with list(); batches are compared by VALUE
+    impl_b = None
+    if err is None:
+        impl_b = [{"pos": rows_int(t[0]), "neg": rows_int(t[1]), "bases": bases_rows(t[2]) if len(t) > 2 else None} for t in out]
+    if in_scope:
+        ctx.oracle("direct _shuffle_data call with fit's arguments does not raise", err is None, case, detail=err, sig=f"{sig}/exception")
+        if impl_b is not None:
+            ctx.oracle("number of batches = ceil(N/B)", len(impl_b) == ceil_nb, case, detail={"len": len(impl_b), "expected": ceil_nb},
+                       sig=f"{sig}/num-batches", theorem="C07_sizes")
     if ctx.driver is None:
         return
     if bases is not None:
         mz = ctx.driver.call("c07.refbasis", samples=data, bases=bases)
         ctx.point("extract_refbasis_samples", "property", zl, mz.get("z"), case, exact=True, sig=f"{kind}/refbasis", theorem="C07_refbasis")
     m = ctx.driver.call("c07.shuffle", perm=perm, negIdx=negIdx, posB=B, negB=negB, numBatches=nb, samples=data, bases=bases, zSamples=zl)
-    if err is not None or "error" in m:
-        ctx.point("direct _shuffle_data error kind", "aux", err, m.get("error"), case, exact=True, sig=f"{sig}/error")
+    if not in_scope:
+        agree = (err is not None or "error" in m) and err == m.get("error") or (impl_b is not None and impl_b == m.get("batches"))
+        ctx.count("direct (num_batches != ceil, informational): " + ("as the model's zip" if agree else "differs from the model's zip"))
         return
-    impl_b = [{"pos": rows_int(t[0]), "neg": rows_int(t[1]), "bases": bases_rows(t[2]) if len(t) > 2 else None} for t in out]
-    ctx.point("direct _shuffle_data batches", "aux", impl_b, m["batches"], case, exact=True, sig=f"{sig}/batches", theorem="C07_zip_truncation")
-    want = -(-N // B) if (bases is None and negB == B) else min(-(-N // B), nb)
-    ctx.oracle("zip length = min(ceil(N/B), num_batches)", len(out) == want, case, detail={"len": len(out), "expected": want},
-               sig=f"{sig}/zip-length", theorem="C07_zip_truncation")
+    if impl_b is None or "error" in m:
+        if "error" in m:
+            ctx.point("model error on a direct call with fit's arguments", "aux", err, m.get("error"), case, exact=True, sig=f"{sig}/error")
+        return
+    ctx.point("direct _shuffle_data batches (by value)", "aux", impl_b, m["batches"], case, exact=True, sig=f"{sig}/batches",
+              theorem="C07_partition, C07_own_basis, C07_sizes, C07_negative")
 
 
 # ------------------------------------------------------------------ generation
